@@ -155,6 +155,9 @@ def capture_cases(rng):
                     for settings in ('', ' [pk]', " [note: 'n', pk]"):
                         out.append((f'column|{lab}', f'Table t {{\n  first int\n{ab}  id int{settings}{tr}\n  last int\n}}\n',
                                     lambda d: d.tables[0].columns[1].comment, exp))
+                    for before in ("  Note: 'tn'\n", "  Note {\n    'tn'\n  }\n", "  indexes {\n    first\n  }\n"):
+                        out.append((f'column-after-note|{lab}', f'Table t {{\n  first int\n{before}{ab}  id int [pk]{tr}\n  last int\n}}\n',
+                                    lambda d: d.tables[0].columns[1].comment, exp))
                     for settings in ('', " [note: 'n']"):
                         out.append((f'enumitem|{lab}', f'Enum e {{\n  first\n{ab}  it{settings}{tr}\n  last\n}}\n',
                                     lambda d: d.enums[0].items[1].comment, exp))
